@@ -352,6 +352,20 @@ def check(ctx):
     with ctx.shared({'C06': 'C07.5'}):
         _alloc6, priv6, merged6 = c06._generators(ctx)
         c06._exactly_once(ctx, priv6, merged6)
+    # shared with C06.5 / C03.4: an instance is listed by one allocation only
+    # (Cell.add_app takes it out of the allocation it belonged to before it
+    # joins the new one) - an instance listed twice has a stale second entry
+    # behind the real one, the backward scan of an instance between the two
+    # meets the stale entry first and displaces an instance that is ahead
+    with ctx.shared({'C06': 'C07.2'}):
+        c06._single_membership(ctx)
+    # shared with C04.1: the affinity counters of a node follow what is
+    # attached below it - a counter inflated by a detached server makes the
+    # limit test of Server.restore refuse a victim that was displaced for
+    # nothing, and it stays off its server although nobody gained a place
+    from . import c04
+    with ctx.shared({'C04': 'C07.3'}):
+        c04._counters(ctx)
 
 
 _S = 'lib/python/treadmill/scheduler/__init__.py'
